@@ -500,3 +500,46 @@ Example C05_db_sample_probe :
   (forall i, value Z bytes Z.eqb (fun _ => 0) (ct_omap Z bytes sx_t2) i = Done (imap_key (aliases sx_db) i)).
 Proof. exact sx_probe. Qed.
 Print Assumptions C05_db_sample_probe.
+
+(* THE SHAPE OF THE MISSING LINK, carried out for one component (theories/StoredDbFrame.v).  An operation on one
+   component of a stored database that keeps the component's invariant and touches exactly its footprint — what every L2
+   history theorem delivers (`frame`) — keeps the WHOLE database stored: the other components are untouched and stay
+   disjoint, because all footprints of stored_db are pairwise distinct and live (C05_db_footprint_live).  For the graph:
+   EVERY history of the GraphData interface (set / get of from, to, from_meta, to_meta, grow, shrink_to_fit, capacity,
+   reload, maintenance: C05_graph_history) run on the graph of a stored database leaves a stored database whose graph
+   arrays are the plain arrays' result and whose aliases, indexes and values are the same; the change is confined to the
+   database's footprint.  graph.rs (GraphImpl: insert_node, insert_edge, the removals) is written against exactly this
+   interface, so each of its operations is such a history.  _partial: what is missing for DbImpl::insert_node etc. is that
+   the history graph.rs issues computes Graph.v's function (C08's simulation is on the plain arrays), and the analogous
+   liftings for the alias tables (through C19's multimap), the index vector and the property vectors. *)
+From Agdb Require Import CollSep CollGraph StoredDbFrame.
+
+Theorem C05_db_graph_histories_preserve_stored_db_partial :
+  forall (fl : bool) ops root d w sp (Q : cres (cg_data * list cg_obs) -> spec -> Prop),
+    stored_db_w (hp sp) root d w -> sdepth sp = 0 -> gops_ok (sd_arrays (gr d)) ops ->
+    (forall dg' s' sp',
+        stored_db_w (hp sp') root (with_gr d (sd_graph_of (fst (ga_run (sd_arrays (gr d)) ops)))) (sd_with_graph w dg' s') ->
+        sdepth sp' = 0 ->
+        frame (hp sp) (hp sp') (sd_foot root w) (sd_foot root (sd_with_graph w dg' s')) ->
+        Q (CrOk (dg', snd (ga_run (sd_arrays (gr d)) ops))) sp') ->
+    cwp fl (cg_run (sw_g w) ops) sp Q.
+Proof. exact sd_graph_history. Qed.
+Print Assumptions C05_db_graph_histories_preserve_stored_db_partial.
+
+Theorem C05_db_footprint_live :
+  forall g root d w, stored_db_w g root d w -> live_all g (sd_foot root w).
+Proof. exact stored_db_live. Qed.
+Print Assumptions C05_db_footprint_live.
+
+(* non-vacuity: the hypotheses hold of the example database for a history that grows the graph by one slot and
+   counts a third node (what insert_node does when the free list is empty) *)
+Example C05_db_sample_graph_history :
+  stored_db_w (hp (sd_spec_of sx_store)) 1 sx_db sx_wit /\ sdepth (sd_spec_of sx_store) = 0 /\
+  gops_ok (sd_arrays (gr sx_db)) [GoGet GfFromMeta 0; GoGrow; GoGet GfToMeta 0; GoSet GfToMeta 0 3]%Z /\
+  sd_graph_of (fst (ga_run (sd_arrays (gr sx_db)) [GoGet GfFromMeta 0; GoGrow; GoGet GfToMeta 0; GoSet GfToMeta 0 3]%Z))
+    = snd (insert_node (gr sx_db)).
+Proof.
+  split; [exact sx_stored|]. split; [reflexivity|]. split; [|vm_compute; reflexivity].
+  cbn [gops_ok gop_ok]. unfold ga_fits, i64_range. repeat split; try lia; intros f; destruct f; vm_compute; reflexivity.
+Qed.
+Print Assumptions C05_db_sample_graph_history.
